@@ -1,7 +1,10 @@
 """C06 — Primality decisions are exact on 64 bits and one-sided above.
 
 K: `isprime64 p` / `pseudoprime p` answered by the real code (both profiles) and by the Lean
-   models Ymq.Mg64.isprime64 / Ymq.Pseudoprime.pseudoprime.
+   models Ymq.Mg64.isprime64 / Ymq.Pseudoprime.pseudoprime; `pseudoprime_word p` (same real call) by the
+   word-level model Ymq.PseudoprimeWord.pseudoprimeW (Miller-Rabin loop over the limb-level ZmodN);
+   `pp_ring p b` (the ring values pseudoprime builds for a base: one, pm1, from_int(b), its square) by the
+   real ZmodN calls and by the limb-level model, judged by Montgomery forms computed in Python.
 O: independent primality knowledge in plain Python: a sieve below 2^22, explicit factorizations
    of the published strong pseudoprimes psi_k, numbers built here with a known status (primes with a
    Pocklington/Proth certificate checked at generation time, composites as explicit products),
@@ -39,7 +42,8 @@ THEOREMS = ["Ymq.C06." + t for t in (
     "pseudoprime_eq_isprime64", "pseudoprime_total", "pseudoprime_oversize",
     # Props/C06Word.lean: the Miller-Rabin loop over the limb-level ZmodN (composition with C07)
     "pseudoprime_word_eq", "pseudoprime_word_total", "pseudoprime_complete_word", "pseudoprime_word_even",
-    "pseudoprime_below_two", "pseudoprime_word_eq_isprime64", "pseudoprime_word_oversize", "pseudoprime_word_iff_sprp_partial")]
+    "pseudoprime_below_two", "pseudoprime_word_eq_isprime64", "pseudoprime_word_oversize", "pseudoprime_word_iff_sprp_partial",
+    "millerBase_low_word_one_counterexample")]
 PROFILES = ["release", "chk"]
 TIMEOUT = 20.0
 W = 1 << 64
@@ -623,8 +627,10 @@ def nontrivial(case, ans):
 CLAIM = ("Lean theorems for all inputs: the model of isprime64 returns on every 64-bit input, never rejects a prime, answers p = 2 on "
          "even inputs, and accepts only primes provided the three published strong-pseudoprime bounds (explicit hypotheses, constants "
          "written in the statement) hold; its Miller closure decides the textbook strong-probable-prime predicate; mg_2adic_inv terminates "
-         "on odd words. pseudoprime (ZmodN taken as exact modular arithmetic) never rejects a prime below 2^512, answers p = 2 on evens and "
-         "equals isprime64 below 2^64. Base sets, thresholds, table and even guard are regenerated from the Rust source on every run and "
+         "on odd words. pseudoprime never rejects a prime below 2^512, answers p = 2 on evens, false on 0 and 1, and "
+         "equals isprime64 below 2^64 -- for the residue-level model AND for the word-level model (the Miller-Rabin loop over C07's "
+         "limb-level ZmodN), proved to be the same function on every input, so that no panic site of ZmodN is reachable from pseudoprime "
+         "up to 512 bits; unless p = 1 mod 2^65 the multiword test decides exactly `strong probable prime to the 46 bases'. Base sets, thresholds, table and even guard are regenerated from the Rust source on every run and "
          "enter the proofs through `decide`; the hand-written control flow is tied to the code by differential runs in both profiles; "
          "an independent Python primality oracle judges every answer.")
 LEVEL_NOTE = ("Trusted: Lean kernel (+propext, Classical.choice, Quot.sound); the literature bounds psi_2, psi_5, psi_12 > 2^64 (hypotheses "
